@@ -62,7 +62,17 @@ KnownClass(t, md) ==
       D  == {i \in 1..Min2(Len(hn), Len(hf)) : hn[i] # hf[i]}
   IN D # {} /\ LET i == CHOOSE x \in D : \A y \in D : x <= y
                IN hn[i].h = hf[i].h /\ hn[i].t = hf[i].t /\ hn[i].p # hf[i].p /\ hf[i].ig = 1 /\ hf[i].t <= md
-Classify(t, v, md) == IF KnownClass(t, md) THEN "orders-differ-after:hook-price:inner-gap-fill" ELSE v
+\* likewise for what a candle-reading strategy read (minute, timeframe, value): if the first differing read is not later than
+\* the first differing order, the verdict names the timeframe whose candles the two simulators showed differently
+ReadClass(t, md) ==
+  LET rn == Nm(t).reads  rf == Fs(t).reads
+      D  == {i \in 1..Min2(Len(rn), Len(rf)) : rn[i] # rf[i]}
+  IN IF D = {} THEN "none"
+     ELSE LET i == CHOOSE x \in D : \A y \in D : x <= y
+          IN IF rn[i].t = rf[i].t /\ rn[i].tf = rf[i].tf /\ rn[i].t <= md THEN rn[i].tf ELSE "none"
+Classify(t, v, md) == IF KnownClass(t, md) THEN "orders-differ-after:hook-price:inner-gap-fill"
+                      ELSE IF ReadClass(t, md) # "none" THEN "orders-differ-after:strategy-read-differs:" \o ReadClass(t, md)
+                      ELSE v
 OrderFields == <<"side", "type", "qty", "price", "minute">>
 OrderDiff(a, b) == IF a.side # b.side THEN "side" ELSE IF a.type # b.type THEN "type" ELSE IF a.qty # b.qty THEN "qty"
                    ELSE IF a.price # b.price THEN "price" ELSE IF a.minute # b.minute THEN "minute" ELSE "none"
